@@ -50,7 +50,7 @@ class ShapeDescriptionBase:
         self.thermoFactorMin = 1
 
     def _processAspectRatio(self, ar):
-        ar = np.atleast_1d(ar)
+        ar = np.array(np.atleast_1d(ar), dtype=np.float64)
         ar[ar < 1] = 1
         return ar
 
